@@ -1465,7 +1465,9 @@ ppl_@CLASS@_wrap_assign
   Variables_Set vars;
   for (ppl_dimension_type i = n; i-- > 0; )
     vars.insert(ds[i]);
-  const Constraint_System* const ccs = to_const(*pcs);
+  // Note: `pcs' is a possibly null pointer.
+  const Constraint_System* const ccs
+    = (pcs != nullptr) ? to_const(*pcs) : nullptr;
   const bool b = (wrap_individually != 0);
   pph.wrap_assign(vars,
                   bounded_integer_type_width(w),
